@@ -12,9 +12,11 @@
     [from >= 0], [0 <= w <= 32], and [from + w + 7 < 2^31], [8*|s| < 2^31] (the
     int32 bit positions [tobit + 7] and [len(s) << 3] do not overflow).  No bound
     on the length of the string or of the key list otherwise. *)
-From Coq Require Import ZArith List Bool Lia.
-From Low Require Import Lib.Bits Lib.BitSeq Lib.Bytes Spec.Bmtree Spec.PathSpec Spec.FromStr32Spec
-  Model.BmtreePath Model.BmtreePathStr Model.FromStr32 Model.LegacyPathsOf Proofs.FromStr32Proofs.
+From Coq Require Import ZArith List Bool Lia Sorted.
+From Low Require Import Lib.Bits Lib.BitSeq Lib.Lex Lib.Bytes Spec.Bmtree Spec.PathSpec Spec.FromStr32Spec
+  Spec.PathsOfSortedSpec Model.BmtreePath Model.BmtreePathStr Model.FromStr32 Model.LegacyPathsOf
+  Model.FromStr32Variants
+  Proofs.FromStr32Proofs Proofs.FromStr32Order.
 Import ListNotations.
 Open Scope Z_scope.
 
@@ -161,4 +163,122 @@ Example C11_PathsOf_nonvacuous :
 Proof.
   split; [repeat constructor; unfold byte_ok; lia|].
   repeat apply conj; try (vm_compute; reflexivity); intro; discriminate.
+Qed.
+
+(** * Widening: what users combine PathOf / PathsOf with (same package [bmtree])
+
+    (1) the C10 accessors applied to PathOf's word read back FromStr32's results *)
+Theorem C11_PathOf_fields : forall s from h,
+  bytes_ok s -> 0 <= from -> 0 <= h <= 32 -> from + h + 7 < 2 ^ 31 -> 8 * zlen s < 2 ^ 31 ->
+  exists p k v, PathOf s from h = Some p /\ FromStr32 s from (from + h) = Some (k, v) /\
+    k = clamp (8 * zlen s - from) 0 h /\
+    PathLen p = k /\ (1 <= k -> PathHeight p = h) /\ (k = 0 -> p = 0) /\
+    PathBits p = v /\ PathMask p = Mask k * 2 ^ (h - k).
+Proof. exact PathOf_fields. Qed.
+Print Assumptions C11_PathOf_fields.
+
+Theorem C11_PathOf_fields_checker : forall s from h,
+  bytes_ok s -> 0 <= from -> 0 <= h <= 32 -> from + h + 7 < 2 ^ 31 -> 8 * zlen s < 2 ^ 31 ->
+  exists p, PathOf s from h = Some p /\
+    [PathLen p; PathHeight p; PathBits p; PathMask p] = spec_PathOf_fields s from h.
+Proof. exact PathOf_fields_checker. Qed.
+Print Assumptions C11_PathOf_fields_checker.
+
+(** (2) PathOf is monotone from Go's string order ([bytes_cmp], proper prefix first) to the
+    numeric order of path words, for keys that agree on the [from] bits before the window;
+    two keys get the same path iff their windows (at most h bits) are the same bit string *)
+Theorem C11_PathOf_monotone : forall s1 s2 from h,
+  bytes_ok s1 -> 8 * zlen s1 < 2 ^ 31 -> bytes_ok s2 -> 8 * zlen s2 < 2 ^ 31 ->
+  0 <= from -> 0 <= h <= 32 -> from + h + 7 < 2 ^ 31 ->
+  firstn (Z.to_nat from) (msb_bits s1) = firstn (Z.to_nat from) (msb_bits s2) ->
+  bytes_cmp s1 s2 <> Gt ->
+  exists p1 p2, PathOf s1 from h = Some p1 /\ PathOf s2 from h = Some p2 /\ p1 <= p2 /\
+    (p1 = p2 <-> firstn (Z.to_nat h) (skipn (Z.to_nat from) (msb_bits s1)) =
+                 firstn (Z.to_nat h) (skipn (Z.to_nat from) (msb_bits s2))).
+Proof. exact PathOf_monotone. Qed.
+Print Assumptions C11_PathOf_monotone.
+
+(** (3) hence on sorted keys (any number, duplicates allowed) sharing their first [from] bits,
+    PathsOf with dedup returns the set of the keys' paths, strictly increasing: dropping what
+    equals its predecessor removes every duplicate *)
+Theorem C11_PathsOf_sorted : forall keys from h p,
+  Forall (fun s => bytes_ok s /\ 8 * zlen s < 2 ^ 31) keys ->
+  0 <= from -> 0 <= h <= 32 -> from + h + 7 < 2 ^ 31 ->
+  Forall (fun s => firstn (Z.to_nat from) (msb_bits s) = p) keys ->
+  Sorted (fun a b => bytes_cmp a b <> Gt) keys ->
+  exists ps, PathsOf keys from h true = Some ps /\
+    StronglySorted Z.lt ps /\
+    forall x, In x ps <-> exists s, In s keys /\ PathOf s from h = Some x.
+Proof. exact PathsOf_sorted. Qed.
+Print Assumptions C11_PathsOf_sorted.
+
+(** the relational checker of the op bmtree.PathsOf/sorted accepts the model's output on
+    every in-domain input, and accepts nothing else *)
+Theorem C11_PathsOf_sorted_checker : forall keys from h,
+  Forall (fun s => bytes_ok s /\ 8 * zlen s < 2 ^ 31) keys ->
+  0 <= from -> 0 <= h <= 32 -> from + h + 7 < 2 ^ 31 ->
+  keys_sortedb keys = true -> same_prefixb from keys = true ->
+  exists ps, PathsOf keys from h true = Some ps /\ sorted_paths_ok keys from h ps = true.
+Proof. exact sorted_paths_ok_model. Qed.
+Print Assumptions C11_PathsOf_sorted_checker.
+
+Theorem C11_PathsOf_sorted_checker_unique : forall keys from h obs,
+  Forall (fun s => bytes_ok s /\ 8 * zlen s < 2 ^ 31) keys ->
+  0 <= from -> 0 <= h <= 32 -> from + h + 7 < 2 ^ 31 ->
+  keys_sortedb keys = true -> same_prefixb from keys = true ->
+  sorted_paths_ok keys from h obs = true -> PathsOf keys from h true = Some obs.
+Proof. exact sorted_paths_ok_unique. Qed.
+Print Assumptions C11_PathsOf_sorted_checker_unique.
+
+(** (4) consecutive windows compose (descending the trie level by level): the value over
+    [from, from+w1+w2) is the value over [from, from+w1) followed by the one over [from+w1, from+w1+w2),
+    the counts add up, and once the first window is cut by the string end the second one is empty *)
+Theorem C11_FromStr32_split : forall s from w1 w2,
+  bytes_ok s -> 0 <= from -> 0 <= w1 -> 0 <= w2 -> w1 + w2 <= 32 ->
+  from + w1 + w2 + 7 < 2 ^ 31 -> 8 * zlen s < 2 ^ 31 ->
+  exists k1 v1 k2 v2 k v,
+    FromStr32 s from (from + w1) = Some (k1, v1) /\
+    FromStr32 s (from + w1) (from + w1 + w2) = Some (k2, v2) /\
+    FromStr32 s from (from + (w1 + w2)) = Some (k, v) /\
+    k = k1 + k2 /\ v = v1 * 2 ^ w2 + v2 /\ (k1 < w1 -> k2 = 0).
+Proof. exact FromStr32_split. Qed.
+Print Assumptions C11_FromStr32_split.
+
+Theorem C11_FromStr32_split_checker : forall s from w1 w2,
+  bytes_ok s -> 0 <= from -> 0 <= w1 -> 0 <= w2 -> w1 + w2 <= 32 ->
+  from + w1 + w2 + 7 < 2 ^ 31 -> 8 * zlen s < 2 ^ 31 ->
+  split_ok w1 w2 (spec_FromStr32 s from w1) (spec_FromStr32 s (from + w1) w2)
+                 (spec_FromStr32 s from (w1 + w2)) = true.
+Proof. exact FromStr32_split_checker. Qed.
+Print Assumptions C11_FromStr32_split_checker.
+
+Example C11_split_nonvacuous :
+  FromStr32 [97; 98; 99] 4 13 = Some (9, 0x2c) /\ FromStr32 [97; 98; 99] 13 36 = Some (11, 0x263000) /\
+  FromStr32 [97; 98; 99] 4 36 = Some (20, 0x16263000) /\ 0x16263000 = 0x2c * 2 ^ 23 + 0x263000 /\
+  split_ok 9 23 (9, 0x2c) (11, 0x263000) (20, 0x16263000) = true.
+Proof. repeat apply conj; vm_compute; reflexivity. Qed.
+
+(** (5) the clip of the byte limit at ceil(tobit/8) inside FromStr32 is an optimisation only:
+    without it (Model/FromStr32Variants.v) the result is the same on the whole domain *)
+Theorem C11_clip_redundant : forall s from w,
+  bytes_ok s -> 0 <= from -> 0 <= w <= 32 -> from + w + 7 < 2 ^ 31 -> 8 * zlen s < 2 ^ 31 ->
+  FromStr32_noclip s from (from + w) = FromStr32 s from (from + w).
+Proof. exact FromStr32_noclip_same. Qed.
+Print Assumptions C11_clip_redundant.
+
+(** non-vacuity: "a`" < "a\x00\xff"... : four sorted keys sharing their first 12 bits (0x61, 0x6_),
+    window of 4 bits from bit 12: paths for nibbles 0, 1, 1, 2 -> three distinct, increasing *)
+Example C11_sorted_nonvacuous :
+  let keys := [[97; 96]; [97; 97; 0; 255]; [97; 97; 255]; [97; 98]] in
+  keys_sortedb keys = true /\ same_prefixb 12 keys = true /\
+  Sorted (fun a b => bytes_cmp a b <> Gt) keys /\
+  Forall (fun s => firstn 12 (msb_bits s) = firstn 12 (msb_bits [97; 96])) keys /\
+  PathsOf keys 12 4 true = Some [0x0000000f; 0x10000000f; 0x20000000f] /\
+  PathsOf keys 12 4 false = Some [0x0000000f; 0x10000000f; 0x10000000f; 0x20000000f] /\
+  bytes_cmp [97; 97; 0; 255] [97; 97; 255] = Lt /\
+  spec_PathOf_fields [97; 98; 99] 20 16 = [4; 16; 0x3000; 0xf000].
+Proof.
+  cbv zeta. repeat apply conj; try (vm_compute; reflexivity).
+  - repeat constructor; vm_compute; discriminate.
+  - repeat constructor.
 Qed.
